@@ -34,13 +34,22 @@ package sequtils
 // Stitch is verified inlined into a client that fixes the sequence type. Proved for all inputs: it never indexes
 // outside the source (every copied segment is src[fs:fe] with 0 <= fs < fe <= len), the result is linear at
 // offset 0 in fresh storage, and the source is untouched when dst != src. That the segments are exactly the
-// union of the feature intervals in ascending order is the bounded stand-in C06.stitch.
+// union of the feature intervals in ascending order is the bounded stand-in C06.stitch; what is proved of the merging
+// loop is that the spans it builds are well formed, sorted and strictly separated (fsp[k].e < fsp[k+1].s), whatever
+// the features (sorted by start by sort.Sort, trusted contract).
 //@ func Stitch
 //@   property C06
 //@   inline
 //@   loop 1 invariant 0 <= idx && idx <= len(ff) && forall k int :: 0 <= k && k < len(ff) ==> ff[k] != nil
+//@   loop 1 invariant [valid-so-far] forall k int {ff[k]} :: 0 <= k && k < idx ==> startOf(ff[k]) <= endOf(ff[k])
 //@   loop 2 invariant 0 <= idx && idx <= len(ff) && (forall k int :: 0 <= k && k < len(ff) ==> ff[k] != nil) && (idx > 0 ==> csp != nil && fresh(ref(csp)) && allocated(ref(csp)))
 //@   loop 2 invariant fresh(fsp) && allocated(fsp) && forall k int :: 0 <= k && k < len(fsp) ==> fsp[k] != nil && fresh(ref(fsp[k])) && allocated(ref(fsp[k]))
+//@   loop 2 invariant [valid-features] forall k int {ff[k]} :: 0 <= k && k < len(ff) ==> startOf(ff[k]) <= endOf(ff[k])
+//@   loop 2 invariant [sorted-features] forall k int, k2 int {ff[k], ff[k2]} :: 0 <= k && k < k2 && k2 < len(ff) ==> startOf(ff[k]) <= startOf(ff[k2])
+//@   loop 2 invariant [last-span] idx > 0 ==> len(fsp) > 0 && (forall k int {fsp[k]} :: k == len(fsp) - 1 ==> fsp[k] == csp) && csp.s <= startOf(ff[idx-1])
+//@   loop 2 invariant [first] idx == 0 ==> len(fsp) == 0
+//@   loop 2 invariant [spans-valid] forall k int {fsp[k]} :: 0 <= k && k < len(fsp) ==> fsp[k].s <= fsp[k].e
+//@   loop 2 invariant [spans-disjoint] forall k int, k2 int {fsp[k], fsp[k2]} :: 0 <= k && k < k2 && k2 < len(fsp) ==> fsp[k].e < fsp[k2].s
 //@   loop 2 writes fresh
 //@   loop 3 invariant 0 <= idx && idx <= len(fsp) && l >= 0 && forall k int :: 0 <= k && k < len(fsp) ==> fsp[k] != nil
 //@   loop 4 invariant 0 <= idx && idx <= len(fsp) && (forall k int :: 0 <= k && k < len(fsp) ==> fsp[k] != nil) && typeis(t, alphabet.Letters) && fresh(t.(alphabet.Letters)) && allocated(t.(alphabet.Letters))
